@@ -17,7 +17,7 @@ impl Prop for C11Prop {
         "C11"
     }
     fn rule(&self) -> String {
-        "Streams (proptest tapes): prog / progbig = grammar-derived ASCII-only programs with comments, use_tabs=false, other settings generated; width pairs W1 < W2 from {10,15,20,30,40,60,80,100,120,160,200} and random 8..250; stream tight: W1 within two columns of the length of a line of the wide result and W2 = W1 + {1,2,3,10,40}, or W2 up to 20 columns below that length and W1 a further 1..30 below (boundary-directed). Streams simple / simple_tight: the strictly asserted domain (simple expressions, declarations incl. variant records with several labels, trailing / own-line / mid-statement `//` comments, continuation <= 8 columns). Stream lits_tight: statements containing valid multi-line string literals followed by further tokens (`'''.Format(A, B)`, call argument, concatenation, first token of the statement, if-condition) 0-3 blocks deep, soft or hard tabs, the same boundary-directed widths. Oracles: (a) if every line of format_W2(x) has <= W1 bytes then format_W1(x) == format_W2(x); (b) lines(format_W2(x)) <= lines(format_W1(x)); (c) if every line of format_W1(x) has <= W1 bytes then every line of format_W2(x) has <= W2. Width = bytes = chars = columns on this domain. Runs where the wrapper logged 'Iteration limit reached' are classified separately. Non-trivial = the two outputs differ, or premise (a) holds with a wrapped line; distinct by hash of (input, configuration, W2)."
+        "Streams (proptest tapes): prog / progbig = grammar-derived ASCII-only programs with comments, use_tabs=false, other settings generated; width pairs W1 < W2 from {10,15,20,30,40,60,80,100,120,160,200} and random 8..250; stream tight: W1 within two columns of the length of a line of the wide result and W2 = W1 + {1,2,3,10,40}, or W2 up to 20 columns below that length and W1 a further 1..30 below (boundary-directed). Streams simple / simple_tight: the strictly asserted domain (simple expressions, declarations incl. variant records with several labels, trailing / own-line / mid-statement `//` comments, continuation <= 8 columns). Stream simple_cli: the strict domain through the binary (stdin -> stdout, configuration given with -C), narrow limits 8..30 and indentation units up to 8 emphasised. Stream lits_tight: statements containing valid multi-line string literals followed by further tokens (`'''.Format(A, B)`, call argument, concatenation, first token of the statement, if-condition) 0-3 blocks deep, soft or hard tabs, the same boundary-directed widths. Oracles: (a) if every line of format_W2(x) has <= W1 bytes then format_W1(x) == format_W2(x); (b) lines(format_W2(x)) <= lines(format_W1(x)); (c) if every line of format_W1(x) has <= W1 bytes then every line of format_W2(x) has <= W2. Width = bytes = chars = columns on this domain. Runs where the wrapper logged 'Iteration limit reached' are classified separately. Non-trivial = the two outputs differ, or premise (a) holds with a wrapped line; distinct by hash of (input, configuration, W2)."
             .into()
     }
     fn assumptions(&self) -> Vec<String> {
@@ -32,6 +32,8 @@ impl Prop for C11Prop {
         v.push(Stream::random("simple_tight", if q { 2500 } else { 30000 }, 700));
         // declaration sections only (records with variant parts, classes, enums, ...)
         v.push(Stream::random("simple_decls_tight", if q { 1500 } else { 20000 }, 700));
+        // the same three clauses on what the binary prints (configuration given with -C)
+        v.push(Stream::random("simple_cli", if q { 150 } else { 1500 }, 700).shards(4));
         // statements with multi-line string literals (C12's shapes), hard tabs included
         v.push(Stream::random("lits_tight", if q { 1500 } else { 20000 }, 300));
         v
@@ -105,7 +107,17 @@ impl Prop for C11Prop {
         let simple = stream.starts_with("simple");
         let decl_heavy = stream.contains("decls");
         let opts = crate::gen::prog::Opts { ascii_only: true, simple, directives: !simple, decl_heavy, ..Default::default() };
-        if simple {
+        if stream == "simple_cli" {
+            // narrow limits and wide indentation units: the region where a front end might be
+            // tempted to second-guess the configured value
+            cfg.tab_width = *t.pick(&[2, 4, 8, 3, 1]);
+            cfg.continuation_indents = *t.pick(&[2, 1, 3]);
+            cfg.use_tabs = t.chance(1, 4);
+            if t.chance(1, 2) {
+                w1 = t.range(8, 30);
+                w2 = w1 + 1 + t.below(40);
+            }
+        } else if simple {
             cfg.tab_width = *t.pick(&[2, 4, 2, 3, 1]);
             cfg.continuation_indents = *t.pick(&[2, 1, 2]);
             // hard tabs too: the limit is then in characters (a tab counts as one), which is
@@ -159,10 +171,39 @@ impl Prop for C11Prop {
         if w1 >= w2 {
             return Outcome::Discard("widths-not-ordered");
         }
-        let o1 = format_with(&case.cfg, &case.input);
-        let mut logf = logcap::facts();
-        let o2 = format_with(c2, &case.input);
-        logf.extend(logcap::facts());
+        let via_cli = case.gen == "simple_cli";
+        let (o1, o2, mut logf) = if via_cli {
+            use crate::engine::cli;
+            cli::check_no_config_above();
+            let sc = cli::Scratch::new();
+            let mut outs = vec![];
+            for cfg in [&case.cfg, c2] {
+                let r = cli::run_pasfmt(&cfg.to_cli(), &sc.dir, Some(case.input.as_bytes()), &[]);
+                if !r.ok() {
+                    return Outcome::Fail(Failure::new("cli-exit", format!("exit {:?}: {}", r.code, short(&r.stderr_text(), 200))).fact("via-cli"));
+                }
+                outs.push((String::from_utf8_lossy(&r.stdout).into_owned(), r.stderr_text()));
+            }
+            let mut lf = vec!["via-cli".to_string()];
+            for (_, e) in &outs {
+                if e.contains("Iteration limit reached") {
+                    lf.push("log:iteration-limit".into());
+                }
+                if e.contains("No solution found") {
+                    lf.push("log:no-solution".into());
+                }
+            }
+            let o2 = outs.pop().unwrap().0;
+            let o1 = outs.pop().unwrap().0;
+            (o1, o2, lf)
+        } else {
+            let o1 = format_with(&case.cfg, &case.input);
+            let mut logf = logcap::facts();
+            let o2 = format_with(c2, &case.input);
+            logf.extend(logcap::facts());
+            (o1, o2, logf)
+        };
+        ctx.class_if(via_cli, "via-cli");
         logf.push(if max_line(&o1) > w1 { "narrow-result-overflows".into() } else { "narrow-result-fits".into() });
         logf.push(if case.tags.iter().any(|t| t == "simple-domain") { "simple-domain".into() } else { "general-domain".into() });
         logf.push(if max_line(&o2) > w2 { "wide-result-overflows".into() } else { "wide-result-fits".into() });
